@@ -777,6 +777,8 @@ class R:
             return o
         if isinstance(o, (bool, int, float, Fr, SI, SB)):
             return R.of(o)
+        if hasattr(o, '__vf_scalar__') and not isinstance(o, ndarray_types()):
+            return R._co(o.__vf_scalar__())
         return None
 
     def __add__(self, o):
@@ -1038,6 +1040,8 @@ class C:
             return C(R.of(o), R(ZERO))
         if isinstance(o, complex):
             return C(o.real, o.imag)
+        if hasattr(o, '__vf_scalar__') and not isinstance(o, ndarray_types()):
+            return C._co(o.__vf_scalar__())
         return None
 
     @property
